@@ -161,6 +161,13 @@ func (env *Env) load(loc string, t types.Type) Val {
 		}
 		return Val{T: t, S: fmt.Sprintf("(mk_%s %s)", sn, strings.Join(fs, " "))}
 	case *types.Array:
+		if scalarElem(u.Elem()) {
+			key, srt := c.arrKey(u.Elem()), c.arrSort(u.Elem())
+			if env.memUsed != nil {
+				*env.memUsed = append(*env.memUsed, memUse{key, srt})
+			}
+			return Val{T: t, S: fmt.Sprintf("(select %s %s)", env.mem(key, srt), loc)}
+		}
 		if u.Len() > 64 {
 			fail("array value of length %d too large to load", u.Len())
 		}
@@ -172,11 +179,7 @@ func (env *Env) load(loc string, t types.Type) Val {
 		}
 		return Val{T: t, S: term}
 	}
-	key := c.memKey(t)
-	if env.memUsed != nil {
-		*env.memUsed = append(*env.memUsed, memUse{key, c.memSort(t)})
-	}
-	return Val{T: t, S: fmt.Sprintf("(select %s %s)", env.mem(key, c.memSort(t)), loc)}
+	return Val{T: t, S: c.readLeaf(env.mem, env.memUsed, loc, t)}
 }
 
 func fieldIndex(t types.Type, name string) (int, *types.Struct) {
@@ -497,11 +500,9 @@ func (c *Ctx) sliceWF(s string) string {
 	z := c.idxLit(0)
 	l, k, o := fmt.Sprintf("(slen %s)", s), fmt.Sprintf("(scap %s)", s), fmt.Sprintf("(soff %s)", s)
 	wf := and(c.cmp("<=", intT, z, l), c.cmp("<=", intT, l, k), c.cmp("<=", intT, z, o))
-	if c.mode == ModeBV {
-		// lengths and offsets fit in 2^62 so index arithmetic does not wrap
-		big := "(_ bv4611686018427387904 64)"
-		wf = and(wf, c.cmp("<", intT, k, big), c.cmp("<", intT, o, big))
-	}
+	// lengths and offsets fit in 2^62 so index arithmetic does not wrap (no real slice is larger)
+	big := c.lit(intT, pow2(62))
+	wf = and(wf, c.cmp("<", intT, k, big), c.cmp("<", intT, o, big))
 	wf = and(wf, fmt.Sprintf("(=> (= (sbase %s) lnil) (and (= %s %s) (= %s %s)))", s, k, z, o, z))
 	return wf
 }
@@ -761,12 +762,12 @@ func (env *Env) bytesToStr(v Val) string {
 	// string(b): uninterpreted content-preserving conversion keyed on (memory, slice)
 	c := env.c
 	t := types.Typ[types.Uint8]
-	key := c.memKey(t)
+	key := c.arrKey(t)
 	if env.memUsed != nil {
-		*env.memUsed = append(*env.memUsed, memUse{key, c.memSort(t)})
+		*env.memUsed = append(*env.memUsed, memUse{key, c.arrSort(t)})
 	}
-	c.declareFun("bytes2str", []string{c.memSort(t), "Slice"}, "Str")
-	return fmt.Sprintf("(bytes2str %s %s)", env.mem(key, c.memSort(t)), v.S)
+	c.declareFun("bytes2str", []string{c.arrSort(t), "Slice"}, "Str")
+	return fmt.Sprintf("(bytes2str %s %s)", env.mem(key, c.arrSort(t)), v.S)
 }
 
 func (env *Env) convertTo(v Val, t types.Type) Val {
@@ -842,7 +843,7 @@ func (c *Ctx) compileSpec(sp *SpecFn) *compiledSpec {
 		// every slice parameter element type.
 		for _, t := range cs.params {
 			if st, ok := t.Underlying().(*types.Slice); ok {
-				cs.memUses = appendUse(cs.memUses, memUse{c.memKey(st.Elem()), c.memSort(st.Elem())})
+				cs.memUses = appendUse(cs.memUses, memUse{c.arrKey(st.Elem()), c.arrSort(st.Elem())})
 			}
 		}
 		c.specOrder = append(c.specOrder, sp.Name)
